@@ -321,6 +321,20 @@ def run(world, rep, tier, only=None):
     rep.ob("C09.g", "lib/ext2fs/*:*:cached physical block set only by the buffer routines", not wrong,
            "updates of ext2_file.physblock outside %s: %s" % (sorted(allowed), wrong))
 
+    search_mark_rule(prog, rep, "C09.h")
+
+    # ------------------------------------------------------------------ C09.w offset width
+    fns = [f for f in prog.functions() if f.file in DATA_PATH_FILES]
+    hits, n_and = width.zx_masks(fns)
+    rep.floor("C09.w mask operations examined in the data path", n_and, 40)
+    rep.ob("C09.w", "lib/ext2fs/{fileio,bmap,punch,fallocate,extent,…}.c:*:no 32-bit complement mask on a 64-bit offset",
+           not hits, "%d `&` operations examined; zero-extended ~mask applied to a 64-bit offset/size/block: %s" %
+           (n_and, [(f.file, f.name, l, t[:50]) for f, l, z, t in hits]))
+
+
+def search_mark_rule(prog, rep, RULE, only_files=None, floor=7):
+    """a block found by the free-block search routines and then used is (a) marked in use on every path on which
+    the caller succeeds and (b) marked before a name is linked / a directory expanded.  Shared by C09.h and C10.h."""
     # ------------------------------------------------------------------ C09.h searched blocks are marked in use
     SEARCH = ("ext2fs_new_block", "ext2fs_new_block2", "ext2fs_new_block3", "ext2fs_new_range")
     MARK = ("ext2fs_block_alloc_stats2", "ext2fs_block_alloc_stats", "ext2fs_block_alloc_stats_range",
@@ -338,6 +352,8 @@ def run(world, rep, tier, only=None):
     }
     for f in prog.functions():
         if not f.file.startswith("lib/ext2fs/") or (f.file, f.name) in HANDED_ON:
+            continue
+        if only_files is not None and f.file not in only_files:
             continue
         for c in calls_to(f, *SEARCH):
             n_search += 1
@@ -367,13 +383,19 @@ def run(world, rep, tier, only=None):
                                                         and x.get("k") in ("v", "m"))
                 return False
 
-            def saw(node, env, flags, _m=marks, _c=c):
+            exposed = []
+
+            def saw(node, env, flags, _m=marks, _c=c, _f=f):
                 if node is _c:
                     return (flags - {"used", "marked"}) | {"searched"}
                 if node in _m:
                     return flags | {"marked"}
                 if "searched" in flags and uses(node):
                     return flags | {"used"}
+                # a block that is already in use by the new object but still free in the bitmap must not be exposed
+                # to code that can allocate from the same bitmap: linking a name may split or grow the directory
+                if "used" in flags and "marked" not in flags and is_call(node, "ext2fs_link", "ext2fs_expand_dir"):
+                    exposed.append(node.line)
                 return flags
             # from the function entry, so that conditions correlated with the search (`if (!inline_data)`
             # around both the search and the mark) are seen consistently; a failed search leaves through
@@ -388,20 +410,21 @@ def run(world, rep, tier, only=None):
                     if (errfn and absint._z(v)) or (not errfn and not _abort_value(node.ev.get("x"))):
                         bad.append(ex.trace(st)[-30:])
             nm = T.call_names(c.ev["x"])[0]
-            rep.ob("C09.h", site(f, "block from %s marked in use before success#%d" % (nm, _occ(f, c))), not bad,
+            if is_call_present(f, "ext2fs_link", "ext2fs_expand_dir"):
+                rep.ob(RULE, site(f, "block from %s marked before a name is linked#%d" % (nm, _occ(f, c))), not exposed,
+                       "no path reaches ext2fs_link()/ext2fs_expand_dir() (which may allocate directory blocks) with the found "
+                       "block `%s` written or mapped but not yet marked in the bitmap: lines %s" % (outv, sorted(set(exposed))))
+            rep.ob(RULE, site(f, "block from %s marked in use before success#%d" % (nm, _occ(f, c))), not bad,
                    "every path that uses the block found by %s (`%s` written, mapped or stored) and returns success passes a "
                    "marking call (alloc_stats / bitmap mark, possibly in a callee); a result that is discarded unused needs "
                    "none: unmarked success paths %s" % (nm, outv, bad[:2]),
                    {"entry": f.name, "paths": bad[:2]} if bad else None)
-    rep.floor("C09.h free-block search call sites in lib/ext2fs", n_search, 7)
+    rep.floor("%s free-block search call sites" % RULE, n_search, floor)
 
-    # ------------------------------------------------------------------ C09.w offset width
-    fns = [f for f in prog.functions() if f.file in DATA_PATH_FILES]
-    hits, n_and = width.zx_masks(fns)
-    rep.floor("C09.w mask operations examined in the data path", n_and, 40)
-    rep.ob("C09.w", "lib/ext2fs/{fileio,bmap,punch,fallocate,extent,…}.c:*:no 32-bit complement mask on a 64-bit offset",
-           not hits, "%d `&` operations examined; zero-extended ~mask applied to a 64-bit offset/size/block: %s" %
-           (n_and, [(f.file, f.name, l, t[:50]) for f, l, z, t in hits]))
+
+
+def is_call_present(fn, *names):
+    return bool(calls_to(fn, *names))
 
 
 def _abort_value(x):
